@@ -740,6 +740,13 @@ pub fn meta(a: &Args, rep: &mut Report) {
             let (m1, s1) = build_map(&contents, &r1);
             let (m2, s2) = build_map(&contents, &r2);
             let (m3, s3) = build_map(&contents, &r3);
+            // premise of the property: the maps really hold the same elements (by len and
+            // lookup). If a builder operation itself is broken that is not C14's finding.
+            for (i, m) in [&m1, &m2, &m3].into_iter().enumerate() {
+                if m.len() != contents.len() || contents.iter().any(|(k, v)| m.get(k) != Some(v)) {
+                    return Err(format!("PREMISE: the map built by recipe {} does not hold the intended contents (len {} vs {})", i + 1, m.len(), contents.len()));
+                }
+            }
             observe_same(&m1, &m2, universe)?;
             observe_same(&m2, &m3, universe)?;
             // reflexive, transitive
@@ -824,10 +831,17 @@ pub fn meta(a: &Args, rep: &mut Report) {
                 }
             }
             Ok(Err(e)) => {
-                rep.direct_violation("C14", &tag, &e, &body);
+                if e.starts_with("PREMISE") {
+                    rep.bump("meta_premise_failed", 1);
+                    rep.direct_violation("C01", &tag, &e, &body);
+                } else {
+                    rep.direct_violation("C14", &tag, &e, &body);
+                }
             }
             Err(p) => {
-                rep.direct_violation("C14", &tag, &format!("panic: {p}"), &body);
+                // a panic while building or observing is a C01-class event; C14 only if the
+                // read-only observers panic, which cannot be told apart here
+                rep.direct_violation("C01", &tag, &format!("panic while building / observing equal-content maps: {p}"), &body);
             }
         }
     }
